@@ -27,6 +27,18 @@ uint64_t nondet_uint64_t(void) { return 0; } float nondet_float(void) { return 0
 unsigned __int128 nondet_unsigned___int128(void) { return 0; }
 #endif
 
+/* concrete shape parameters of the query (cbmc -DVP_PARAMS=a,b,c; natively from the replay file) */
+#ifdef __CPROVER__
+#ifndef VP_PARAMS
+#define VP_PARAMS 0
+#endif
+static const uint32_t vp_params[] = { VP_PARAMS, 0, 0, 0, 0, 0, 0, 0, 0 };
+uint32_t X_vp_param(uint32_t k) { VP_CHECK(k < sizeof(vp_params) / sizeof(vp_params[0]), "env.param_index"); return vp_params[k]; }
+#else
+uint32_t vp_native_param(uint32_t k);
+uint32_t X_vp_param(uint32_t k) { return vp_native_param(k); }
+#endif
+
 /* ------------------------------------------------------------------ C++ exceptions (Itanium ABI shape) */
 int vp_exc_pending; uint8_t* vp_exc_obj; uint8_t* vp_exc_type;
 static int vp_caught_depth; static int vp_rethrown;
@@ -118,8 +130,14 @@ uint8_t* X_vp_alloc(uint64_t n, uint32_t id) {
   VP_ASSUME(led_cnt < VP_MAXB);
   uint8_t* p = malloc(n); VP_ASSUME(p != 0);
 #ifdef __CPROVER__
-  /* symbolic base address: an allocator<unsigned char> guarantees no alignment, so any residue is possible */
+  /* base address: an allocator<unsigned char> guarantees no alignment, so any residue is possible.
+   * VP_RESIDUE=k: concrete residue (k*(i+1)) mod 64 for the i-th block (a shape parameter; symbolic offsets in every
+   * later access make whole-image algorithms intractable); without it the residue is symbolic (light queries) */
+#ifdef VP_RESIDUE
+  uint64_t r = ((uint64_t)(VP_RESIDUE) * (uint64_t)(led_cnt + 1)) % 64;
+#else
   uint64_t r = nondet_uint64_t(); VP_ASSUME(r < 64);
+#endif
   led_base[led_cnt] = 0x100000ull * (uint64_t)(led_cnt + 1) + r;
 #else
   led_base[led_cnt] = (uint64_t)(uintptr_t)p;
@@ -154,17 +172,25 @@ uint32_t X_vp_in_live_block(uint8_t* p, uint64_t n, uint32_t id) {
   return 0;
 }
 void X_vp_check_no_leak(void) { VP_CHECK(X_vp_live_blocks() == 0, "alloc.no_leak"); }
+/* Address model.  Blocks handed out by the harness allocator / vp_buf have a modelled base address (symbolic residue for
+ * the allocator); every other object gets (object id << 40) + 2^36 + signed offset, so that pointers before the start of
+ * an object (row_end of a flipped view) still compare and subtract correctly. */
 uint64_t vp_ptrtoint(uint8_t* p) {
 #ifdef __CPROVER__
+  if (p == 0) return 0;
   for (int i = 0; i < VP_MAXB; i++) if (i < led_cnt && __CPROVER_same_object(p, led_p[i]))
-    return led_base[i] + (uint64_t)__CPROVER_POINTER_OFFSET(p);
-#endif
+    return led_base[i] + (uint64_t)(int64_t)__CPROVER_POINTER_OFFSET(p);
+  return ((uint64_t)__CPROVER_POINTER_OBJECT(p) << 40) + (1ull << 36) + (uint64_t)(int64_t)__CPROVER_POINTER_OFFSET(p);
+#else
   return (uint64_t)p;
+#endif
 }
 uint8_t* vp_inttoptr(uint64_t x) {
 #ifdef __CPROVER__
-  for (int i = 0; i < VP_MAXB; i++) if (i < led_cnt && x >= led_base[i] && x - led_base[i] <= led_n[i] + 64)
-    return led_p[i] + (x - led_base[i]);
+  if (x == 0) return 0;
+  for (int i = 0; i < VP_MAXB; i++) if (i < led_cnt && x + 4096 >= led_base[i] && x - led_base[i] + 4096 <= led_n[i] + 8192)
+    return led_p[i] + (int64_t)(x - led_base[i]);
+  VP_CHECK(0, "env.inttoptr_unknown_object");
 #endif
   return (uint8_t*)x;
 }
@@ -173,7 +199,11 @@ uint64_t X_vp_addr(uint8_t* p) { return vp_ptrtoint(p); }
 uint8_t* vp_alloca(uint64_t n) { uint8_t* p = malloc(n ? n : 1); VP_ASSUME(p != 0); return p; }
 
 /* exact-size heap buffers for views over caller-supplied storage */
-uint8_t* X_vp_buf(uint64_t n) { uint8_t* p = malloc(n ? n : 1); VP_ASSUME(p != 0); return p; }
+uint8_t* X_vp_buf(uint64_t n) { uint8_t* p = malloc(n ? n : 1); VP_ASSUME(p != 0);
+  /* registered in the address map only (live flag 0: not an allocator block) */
+  VP_CHECK(led_cnt < VP_MAXB, "env.ledger_capacity"); VP_ASSUME(led_cnt < VP_MAXB);
+  led_base[led_cnt] = 0x100000ull * (uint64_t)(led_cnt + 1) + 64; led_p[led_cnt] = p; led_n[led_cnt] = n; led_id[led_cnt] = -1; led_live[led_cnt] = 0; led_cnt++;
+  return p; }
 void X_vp_buf_free(uint8_t* p) { free(p); }
 
 /* ------------------------------------------------------------------ operator new / delete */
